@@ -54,6 +54,10 @@ def run(v):
             lines.append("S%d ::= SEQUENCE { f1 %s, f2 %s OPTIONAL }" % (i + 1, ct, ct))
             lines.append("C%d ::= CHOICE { a1 %s, a2 BOOLEAN }" % (i + 1, ct))
             lines.append("L%d ::= SEQUENCE OF %s" % (i + 1, ct))
+            # ... and as the governing type of a value assignment (the constant takes the type of its governor)
+            if not chunk[i]["dev"]:
+                val = big(chunk[i]["lb"]) if chunk[i]["hasLb"] else (big(chunk[i]["ub"]) if chunk[i]["hasUb"] else 0)
+                lines.append("v%d %s ::= %d" % (i + 1, ct, val))
         asn = "IntMap DEFINITIONS AUTOMATIC TAGS ::= BEGIN\n" + "\n".join(lines) + "\nEND\n"
         rows = felib.pipeline([asn], d, tag="im_%d" % lo)
         if isinstance(rows, dict) or (rows and "error" in rows[0]):
@@ -62,6 +66,19 @@ def run(v):
             nbad += 1
             continue
         by = {r["name"]: r for r in rows}
+        consts = dict(re.findall(r"pub const V_?(\d+): (\w+) = ", felib.LAST_CODE))
+        for i in wrapped:
+            c = chunk[i]
+            if c["dev"]:
+                continue
+            checked += 1
+            got_t = consts.get(str(i + 1))
+            acceptable = [tyname(x) for x in c["types"]]
+            if got_t not in acceptable:
+                nbad += 1
+                if nbad <= 30:
+                    v.violation("v%d %s ::= ..: the constant is generated as %s, specification allows %s" % (i + 1, constraint_text(c), got_t, acceptable),
+                                {"asn1": constraint_text(c), "as": "value assignment", "got": got_t, "acceptable": acceptable}, "int_%03d.json" % nbad)
         for i, c in enumerate(chunk):
             names = ["T%d" % (i + 1)] + (["S%d" % (i + 1), "C%d" % (i + 1), "L%d" % (i + 1)] if i in wrapped else [])
             for nm in names:
